@@ -131,6 +131,11 @@ func shouldUpdateAlertStateToFiring(alertDetails *alertutils.AlertDetails, curre
 		return false
 	}
 
+	if alertDetails.EvalInterval == 0 {
+		log.Errorf("ALERTSERVICE: shouldUpdateAlertStateToFiring: EvalInterval is 0. Alert=%+v", alertDetails.AlertName)
+		return false
+	}
+
 	intervalCount := alertDetails.EvalWindow / alertDetails.EvalInterval
 	if intervalCount == 0 {
 		log.Errorf("ALERTSERVICE: shouldUpdateAlertStateToFiring: EvalWindow=%v is less than EvalInterval=%v. Alert=%+v", alertDetails.EvalWindow, alertDetails.EvalInterval, alertDetails.AlertName)
